@@ -371,7 +371,18 @@ type c08rig struct {
 }
 
 func newC08Rig(timeout time.Duration) (*c08rig, error) {
-	nodes, err := StartCluster(2, func(int) NodeOpts {
+	return newC08RigAsym(timeout, timeout)
+}
+
+// newC08RigAsym: the node holding the upstream (node 0) and the other node
+// (node 1, the entry of forwarded requests) may be configured with different
+// proxy timeouts; rg.timeout is the entry node's.
+func newC08RigAsym(ownerTimeout, timeout time.Duration) (*c08rig, error) {
+	nodes, err := StartCluster(2, func(i int) NodeOpts {
+		timeout := timeout
+		if i == 0 {
+			timeout = ownerTimeout
+		}
 		// 400 ms gossip interval: the failure detector then needs ~8 s of silence to
 		// suspect the other node, which a loaded machine does not produce by accident
 		return NodeOpts{ProxyTimeout: timeout, GossipInterval: 400 * time.Millisecond, Mutate: func(c *config.Config) {
@@ -490,6 +501,13 @@ func (rg *c08rig) transparency(c c08case, body []byte, sh *core.Shard) (sig, wha
 	}
 	// ---- response side
 	sc := c.Script
+	if resp.Status == 504 && sc.Status != 504 && time.Since(t0) >= rg.timeout {
+		// the gateway's own timeout expired although this rig's is 15 s: the machine
+		// is overloaded; that is the timeout working, not a transparency matter.
+		// Retried; a gateway that keeps answering 504 is reported by the caller.
+		sh.Count("gateway_timeouts_under_load", 1)
+		return "", "", true
+	}
 	if resp.Status != sc.Status {
 		return "status-changed", fmt.Sprintf("upstream answered %d, client received %d", sc.Status, resp.Status), false
 	}
@@ -688,6 +706,44 @@ func (rg *c08rig) faultMatrix(sh *core.Shard) (sig, what string) {
 	return "", ""
 }
 
+// asymTimeouts: forwarded requests to a hanging / late upstream through an entry
+// node whose timeout (rg.timeout) is much shorter than the owner node's.
+func (rg *c08rig) asymTimeouts(sh *core.Shard) (sig, what string) {
+	tmo := rg.timeout
+	addr := rg.nodes[1].ProxyAddr()
+	for _, cse := range []struct {
+		name string
+		sc   *c08script
+	}{
+		{"upstream never answers", &c08script{Behavior: "hang"}},
+		{"upstream answers after the entry node's timeout", &c08script{Behavior: "delay", DelayMs: int(tmo/time.Millisecond) * 8, Status: 200}},
+	} {
+		for rep := 0; rep < 2; rep++ {
+			id := fmt.Sprintf("asym-%d-%d", rep, len(cse.name))
+			rg.up.script(id, cse.sc)
+			raw := BuildRequest("GET", "/fault", "c08.piko.test", [][2]string{{"X-Case", id}}, nil, false)
+			t0 := time.Now()
+			resp, err := RawRequest(addr, raw, "GET", 30*time.Second)
+			el := time.Since(t0)
+			sh.Count("asymmetric_timeout_cases", 1)
+			name := fmt.Sprintf("%s, forwarded by a node with timeout %s to a node with timeout 60s", cse.name, tmo)
+			if err != nil {
+				return "fault-no-response", fmt.Sprintf("fault case %q: %v after %s (expected status 504)", name, err, el)
+			}
+			if resp.Status != 504 {
+				return "fault-wrong-status", fmt.Sprintf("fault case %q: got %d after %s, expected 504 (body %q)", name, resp.Status, el, clipBytes(resp.Body))
+			}
+			if el < tmo-20*time.Millisecond {
+				return "fault-too-early", fmt.Sprintf("fault case %q: 504 after %s, earlier than the configured timeout", name, el)
+			}
+			if el > tmo+5*time.Second {
+				return "fault-too-late", fmt.Sprintf("fault case %q: 504 only after %s: the entry node did not apply its own timeout", name, el)
+			}
+		}
+	}
+	return "", ""
+}
+
 func runC08(sh *core.Shard, a props.Args) {
 	if a.Shard%4 == 0 {
 		// the failure matrix runs on its own cluster with a short proxy timeout
@@ -706,6 +762,24 @@ func runC08(sh *core.Shard, a props.Args) {
 		}
 		sh.Exhaustive["fault_matrix"] = true
 		sh.Nontrivial(core.Hash("fault-matrix"))
+	}
+	if a.Shard%4 == 2 {
+		// per-node timeouts differ (a legal configuration): the entry node must
+		// honour its own 400 ms although the node holding the upstream allows 60 s
+		fmt.Printf("CASE C08 asymmetric timeouts\n")
+		arg, err := newC08RigAsym(60*time.Second, 400*time.Millisecond)
+		if err != nil {
+			sh.Inconcl("C08 asymmetric rig: %v", err)
+			return
+		}
+		sig, what := arg.asymTimeouts(sh)
+		StopAll(arg.nodes)
+		sh.Eval()
+		if sig != "" {
+			sh.Violate(sig, what, map[string]any{"kind": "asymmetric-timeouts"})
+			return
+		}
+		sh.Exhaustive["asymmetric_timeouts"] = true
 	}
 	// transparency runs with a proxy timeout that a loaded machine does not hit
 	rg, err := newC08Rig(15 * time.Second)
@@ -790,12 +864,12 @@ func runC08(sh *core.Shard, a props.Args) {
 func init() {
 	props.Register(&props.Prop{
 		ID: "C08", Level: "exploration", Race: true, Parallel: 8, BoundedTime: true,
-		Rule: "a 2-node real cluster (proxy timeout 400 ms) with a raw recording responder on a piko listener; a raw-socket HTTP/1.1 client sends seeded requests through the local node and through the other node (forwarded): 9 methods incl. HEAD/OPTIONS/PATCH and an extension method, targets with %2F %20 %25 %3F UTF-8 // .. ;params and odd queries, 0-30 headers with duplicates, mixed case, empty and 3 KB values, Cookie lists, optional User-Agent / Accept-Encoding / X-Forwarded-For, Host label or x-piko-endpoint addressing, bodies 0 B-300 KB (thorough 2 MiB) fixed-length or chunked; the upstream answers from a seeded script (22 statuses, duplicate headers, Set-Cookie lists, empty values, identity/chunked/empty bodies, gzip when accepted). Oracle: the upstream saw the same method, raw request target, Host, body and every end-to-end header (per name, values in order) and nothing else except X-Forwarded-For (appended), X-Piko-Forward, Accept-Encoding: gzip when the client sent none, and framing headers; the client received the upstream's status, end-to-end headers (nothing fabricated except Date and framing) and body (transparently gunzipped only when the client had not asked for gzip). Failure matrix, enumerated completely on both paths: no endpoint derivable (5 Host shapes) => 400; nobody serves it, upstream closes at once / mid-headers, remote proxy port closed, upstream announced go-away => 502; never answers / answers after the timeout => 504 no earlier than the timeout and no later than timeout+5 s; slower but inside the timeout => 200; Upgrade: websocket / WebSocket / WEBSOCKET idle for 4x the timeout stays open. Every request has a 20 s watchdog whose expiry is a violation (the property says 'never a hang'). Distinct = hash of (method, path, via, header count, sizes, framing, status).",
+		Rule: "a 2-node real cluster (proxy timeout 400 ms) with a raw recording responder on a piko listener; a raw-socket HTTP/1.1 client sends seeded requests through the local node and through the other node (forwarded): 9 methods incl. HEAD/OPTIONS/PATCH and an extension method, targets with %2F %20 %25 %3F UTF-8 // .. ;params and odd queries, 0-30 headers with duplicates, mixed case, empty and 3 KB values, Cookie lists, optional User-Agent / Accept-Encoding / X-Forwarded-For, Host label or x-piko-endpoint addressing, bodies 0 B-300 KB (thorough 2 MiB) fixed-length or chunked; the upstream answers from a seeded script (22 statuses, duplicate headers, Set-Cookie lists, empty values, identity/chunked/empty bodies, gzip when accepted). Oracle: the upstream saw the same method, raw request target, Host, body and every end-to-end header (per name, values in order) and nothing else except X-Forwarded-For (appended), X-Piko-Forward, Accept-Encoding: gzip when the client sent none, and framing headers; the client received the upstream's status, end-to-end headers (nothing fabricated except Date and framing) and body (transparently gunzipped only when the client had not asked for gzip). Failure matrix, enumerated completely on both paths: no endpoint derivable (5 Host shapes) => 400; nobody serves it, upstream closes at once / mid-headers, remote proxy port closed, upstream announced go-away => 502; never answers / answers after the timeout => 504 no earlier than the timeout and no later than timeout+5 s; slower but inside the timeout => 200; Upgrade: websocket / WebSocket / WEBSOCKET idle for 4x the timeout stays open. Asymmetric rig: the entry node (timeout 400 ms) forwards to a node with timeout 60 s whose upstream hangs or answers after 3.2 s => 504 from the entry node within its own timeout+5 s. Every request has a 20 s watchdog whose expiry is a violation (the property says 'never a hang'). Distinct = hash of (method, path, via, header count, sizes, framing, status).",
 		Assumptions: []string{
 			"reason phrases, header-name case and Date/Content-Length/Transfer-Encoding framing are not part of the comparison (hop-by-hop or case-insensitive by the HTTP spec)",
 			"every scripted response carries a Content-Type, so net/http's content sniffing (which would add one) is not exercised",
 		},
-		RequireCounters: []string{"requests_local", "requests_forwarded", "fault_cases", "gzip_transparently_decoded"},
+		RequireCounters: []string{"requests_local", "requests_forwarded", "fault_cases", "asymmetric_timeout_cases", "gzip_transparently_decoded"},
 		Shards:          func(string) int { return 16 },
 		Run:             runC08,
 	})
